@@ -16,7 +16,7 @@ from ..snap import abs_value
 from .c13 import Env, item_eq
 
 UNIVERSES = ["str", "int", "tuple_keyfn", "kitem", "kitem_typed", "str_typed", "tuple_typed", "unhashable_keyfn",
-             "repr_keyfn", "repr_keyfn", "mod_keyfn", "mod_keyfn", "selfkey_typed", "unhashable_tuple_keyfn"]
+             "repr_keyfn", "repr_keyfn", "mod_keyfn", "mod_keyfn", "selfkey_typed", "unhashable_tuple_keyfn", "kitem_attrkey"]
 BINOPS = ["or", "and", "sub", "xor"]
 CMPOPS = ["le", "lt", "ge", "gt", "eq", "ne", "isdisjoint"]
 INPLACE = ["ior", "iand", "isub", "ixor"]
@@ -318,10 +318,9 @@ class C14(Check):
                         except TypeError:
                             kk = None
                     if kk is None:
-                        # (an argument the key function cannot be applied to: the lookup fails, with KeyError or with the key
-                        # function's own error -- the statement names no exception class)
-                        exp_kind = "KeyError" if (env.keyable(arg) or (isinstance(arg, (str, int)) and env.universe != "mod_keyfn")) \
-                            else "any_error"
+                        # (the set behaves like a mapping from key to item: an absent key -- also one the key function
+                        # cannot be applied to -- is a KeyError)
+                        exp_kind = "KeyError"
                     else:
                         exp_val = m[kk]
                 elif k is None:
